@@ -731,7 +731,7 @@ func parseModLocs(s string) ([]ModLoc, error) {
 	return out, nil
 }
 
-var specFuncRe = regexp.MustCompile(`^spec\s+([A-Za-z_][A-Za-z0-9_]*)\s*\(([^)]*)\)\s*([A-Za-z\[\]0-9_.]*)\s*=\s*(.*)$`)
+var specFuncRe = regexp.MustCompile(`^spec\s+([A-Za-z_][A-Za-z0-9_]*)\s*\(([^)]*)\)\s*([A-Za-z\[\]0-9_.*]*)\s*=\s*(.*)$`)
 
 func parseSpecFunc(it string) (*SpecFunc, error) {
 	m := specFuncRe.FindStringSubmatch(it)
